@@ -766,25 +766,24 @@ func ruleFREEALLCONSUMED(p *Program, rep *Report) {
 	} else {
 		rep.Bad("FREE-ALL-CONSUMED", "acker.cleanup|free-loop", p.Pos(fn.Pos()), "acker.cleanup no longer frees the pages of the ACK plan (ackState.free) inside the cleanup transaction: consumed pages are never returned to the file")
 	}
-	// (b) inuse.Set(inuse.Get() - len(state.free))
+	// (b) inuse.Set(inuse.Get() - len(state.free)), in cleanup or a helper below it
 	okCount := false
-	for _, b := range fn.Blocks {
-		for _, ins := range b.Instrs {
-			c, ok := ins.(*ssa.Call)
-			if !ok || c.Common().StaticCallee() == nil || c.Common().StaticCallee().Name() != "Set" || recvField(c) != inuse {
-				continue
-			}
-			arg := c.Common().Args[len(c.Common().Args)-1]
-			if bo, ok := stripConv(arg).(*ssa.BinOp); ok && bo.Op == token.SUB {
-				if derivesFrom(bo.Y, func(v ssa.Value) bool {
-					call, ok := v.(*ssa.Call)
-					if !ok {
-						return false
+	reach := staticReach(p, fn)
+	for g := range reach {
+		if fnPkgPath(g) != modPath+"/pq" {
+			continue
+		}
+		for _, b := range g.Blocks {
+			for _, ins := range b.Instrs {
+				c, ok := ins.(*ssa.Call)
+				if !ok || c.Common().StaticCallee() == nil || c.Common().StaticCallee().Name() != "Set" || recvField(c) != inuse {
+					continue
+				}
+				arg := c.Common().Args[len(c.Common().Args)-1]
+				if bo, ok := stripConv(arg).(*ssa.BinOp); ok && bo.Op == token.SUB {
+					if dataSliceHas(p, bo.Y, nil, free, reach) {
+						okCount = true
 					}
-					bi, ok := call.Common().Value.(*ssa.Builtin)
-					return ok && bi.Name() == "len" && loadedField(call.Common().Args[0]) == free
-				}, 0, map[ssa.Value]bool{}) {
-					okCount = true
 				}
 			}
 		}
